@@ -44,7 +44,8 @@ def run(ctx):
         for a in sp['assets']:
             for key in ('max_take', 'min_take', 'min_cap', 'max_cap', 'extra_costs'):
                 if isinstance(a.get(key), dict) and 'dates_as' not in a[key] and rng.random() < 0.5:
-                    a[key]['dates_as'] = rng.choice(['datetime64[s]', 'datetime64[m]', 'datetime64[ns]', 'datetime64[ms]', 'DatetimeIndex', 'DatetimeIndex_aware'])
+                    a[key]['dates_as'] = rng.choice(['datetime64[s]', 'datetime64[m]', 'datetime64[ns]', 'datetime64[ms]', 'DatetimeIndex', 'DatetimeIndex_aware']
+                                                    + (['object_array_aware', 'object_array_aware'] if sp['grid'].get('tz') else []))
                     a[key]['as_array'] = rng.random() < 0.5
                 elif isinstance(a.get(key), dict) and 'dates_as' not in a[key] and sp['grid'].get('tz') and rng.random() < 0.6:
                     a[key]['stamp_tz'] = rng.choice(['UTC', 'UTC', 'Etc/GMT-3'])      # zone-aware stamps in UTC / a fixed offset
